@@ -523,7 +523,7 @@ def main():
                 "manual's equations, verify definitions) plus Python recomputation of relational invariants; distinct = (family, instance "
                 "parameter, input shape); non-trivial = input in the obligation's documented domain with >= 2 elements where it matters",
         "samples": samples.items, "evaluations_by_family": by, "nontrivial": nontrivial,
-        "obligations": ["K01 sort/sort_by stable", "K02 group_by maximal runs", "K03 unique_by", "K04 min/max_by extremal", "K05 keys",
+        "obligation_names": ["K01 sort/sort_by stable", "K02 group_by maximal runs", "K03 unique_by", "K04 min/max_by extremal", "K05 keys",
                         "K06 entries identity + key order", "K07 indices", "K08 index/rindex", "K09 contains/inside", "K10 has/in",
                         "K11 flatten", "K12 transpose verify", "K13 combinations", "K14 bsearch", "K15 walk", "K16 del/delpaths",
                         "K17 paths", "K18 pick", "K19 map/map_values", "K20 join", "K21 split/1", "K22 trimstr/starts/endswith",
